@@ -83,6 +83,16 @@ impl<T> IterChain2<T> for Vec<T> {
     #[verifier::external_body] fn collect<B: FromItems<T>>(self) -> (r: B) { unimplemented!() }
     #[verifier::external_body] fn try_for_each<E, F: Fn(T) -> Result<(), E>>(self, f: F) -> (r: Result<(), E>) { unimplemented!() }
 }
+/// Iterator::find (A-ITER): the first item the predicate accepts, None when it accepts none
+pub trait IterFind<T>: Sized {
+    spec fn items_f(&self) -> Seq<T>;
+    fn find<F: Fn(&T) -> bool>(self, f: F) -> (r: Option<T>)
+        requires forall|i: int| 0 <= i < self.items_f().len() ==> call_requires(f, (&#[trigger] self.items_f()[i],)),
+        ensures r is None ==> forall|i: int| 0 <= i < self.items_f().len() ==> call_ensures(f, (&#[trigger] self.items_f()[i],), false),
+                r is Some ==> exists|i: int| 0 <= i < self.items_f().len() && #[trigger] self.items_f()[i] == r->Some_0 && call_ensures(f, (&self.items_f()[i],), true)
+                    && forall|j: int| 0 <= j < i ==> call_ensures(f, (&#[trigger] self.items_f()[j],), false);
+}
+impl<T> IterFind<T> for Vec<T> { open spec fn items_f(&self) -> Seq<T> { self@ } #[verifier::external_body] fn find<F: Fn(&T) -> bool>(self, f: F) -> (r: Option<T>) { unimplemented!() } }
 /// rayon: `par_iter()` / `into_par_iter()` as the Vec of item references
 pub trait ParIterExt<T> { spec fn pitems(&self) -> Seq<T>; fn par_iter<'a>(&'a self) -> (r: Vec<&'a T>) ensures refs_of(r@, self.pitems()); }
 impl<T> ParIterExt<T> for Vec<T> { open spec fn pitems(&self) -> Seq<T> { self@ } #[verifier::external_body] fn par_iter<'a>(&'a self) -> (r: Vec<&'a T>) { unimplemented!() } }
